@@ -135,8 +135,8 @@ def convex_prismatic(rng):
     return np.vstack([np.c_[base, np.zeros(n)], [[0.0, 0.0, h]], [[0.0, 0.0, -h / 2]]])
 
 
-def convex_set(rng, allow_place=True):
-    kind = rng.choice(["ellipsoid", "ellipsoid", "lattice", "prismatic", "flat", "needle"])
+def convex_set(rng, allow_place=True, kinds=("ellipsoid", "ellipsoid", "lattice", "prismatic", "flat", "needle")):
+    kind = rng.choice(list(kinds))
     if kind == "ellipsoid":
         V = convex_ellipsoid(rng)
     elif kind == "lattice":
